@@ -2,8 +2,11 @@
 
    leg timemacro:  case = ( chunk ... )                 result = ( date time timestamp digest_ok )
    leg toonew:     case = ( (m?) (c?) start )           result = 0 | 1
-   leg ppkey:      case = ( itm ( (bytes date mtime) ... ) )   result = ( class ... ), 0 = mode disabled for this input,
-                   otherwise 1 + index of the first variant whose preprocessor-cache key is equal
+   leg ppkey:      case = ( itm ( (bytes date mtime ( arg ... ) ( (name value) ... ) ( extra-hash ... ) plusplus) ... ) )
+                   requests for one input path: input contents / SOURCE_DATE_EPOCH / mtime, the hashed arguments,
+                   the environment, the extra hashes, the ++ flag.
+                   result = ( class ... ), 0 = mode disabled for this input, otherwise 1 + index of the first
+                   variant whose preprocessor-cache key is equal
    leg ppcache:    case = ( step ... )
        step = ( rec fresh date key ( (name system) ... ) ( file ... ) )
             | ( look date ( file ... ) )
@@ -185,19 +188,21 @@ Definition run_ppcache (x : sx) : sx :=
   end.
 
 (* ---------------- ppkey ---------------- *)
-Definition opt_idigest_eqb (a b : option (idigest Dg)) : bool :=
+Definition kparts := option (pp_key_parts Dg).
+
+Definition kparts_eqb (a b : kparts) : bool :=
   match a, b with
-  | Some x, Some y => idigest_eqb Dg bytes_eqb x y
+  | Some x, Some y => pp_key_eqb Dg bytes_eqb x y
   | _, _ => false
   end.
 
-Fixpoint first_pos (k : option (idigest Dg)) (l : list (option (idigest Dg))) (i : N) : N :=
+Fixpoint first_pos (k : kparts) (l : list kparts) (i : N) : N :=
   match l with
   | [] => i
-  | x :: r => if opt_idigest_eqb x k then i else first_pos k r (i + 1)
+  | x :: r => if kparts_eqb x k then i else first_pos k r (i + 1)
   end.
 
-Fixpoint classes (seen todo : list (option (idigest Dg))) : list sx :=
+Fixpoint classes (seen todo : list kparts) : list sx :=
   match todo with
   | [] => []
   | k :: r =>
@@ -207,12 +212,17 @@ Fixpoint classes (seen todo : list (option (idigest Dg))) : list sx :=
        end) :: classes (seen ++ [k]) r
   end.
 
+Definition dec_pair (x : sx) : bytes * bytes :=
+  match x with SL [n; v] => (get_B n, get_B v) | _ => ([], []) end.
+
 Definition run_ppkey (x : sx) : sx :=
   match x with
   | SL [itm; SL vs] =>
       let cfg := cfg_of (if get_bool itm then 13 else 9) in
       let ks := map (fun v => match v with
-                              | SL [b; d; m] => input_file_digest Dg Hx HTx cfg (get_B b) (get_B d) (get_N m)
+                              | SL [b; d; m; SL args; SL env; SL extra; pp] =>
+                                  pp_key_of Dg Hx HTx cfg (get_bool pp) (map get_B args) (map get_B extra)
+                                            (map dec_pair env) (get_B b) (get_B d) (get_N m)
                               | _ => None
                               end) vs in
       SL (classes [] ks)
